@@ -11,6 +11,8 @@ from ..runner import Sub
 
 ID = 'C16'
 WARM_EXTRA = True
+TECHNIQUE = 'PBT against textbook formulas (fsum / exact rational Pearson) + algebraic laws + wrapper differential'
+LEVEL_TEXT = 'Exploration: 1e-9 relative; R2 skipped when 0/0-conditioned. Finds counter-examples (shrunk to a replay file); never proves absence.'
 RULE = ('metrics: equal-length vector pairs n >= 1 (>= 3 for adjusted R2), finite, magnitudes 10^[-9,12], '
         'y, y_hat >= 0 where logs/ratios need it, float64 and int64, contiguous and strided, eps in {default, '
         '1e-8, 0.5}; oracle = textbook formulas with math.fsum (1e-9 relative, conditioning-aware floor for R2) '
